@@ -61,8 +61,9 @@ DefHeld(s)  == Cardinality({i \in HeldIdx(s) : Certain(s.acc[i])})
 Calling(s)  == {i \in Idx(s) : s.acc[i].st = "calling"}
 \* messages accepted before an earlier close(): the statements do not say whether they are kept
 \* (they may still occupy the buffer, and may or may not be transmitted after a re-open)
+\* (likewise a call the application itself cancelled: its message may or may not have been taken)
 StaleHeld(s) == Cardinality({i \in Idx(s) : LET e == s.acc[i] IN
-                               e.st = "ok" /\ e.stale /\ e.enc = "ok" /\ s.now < e.expiry /\ NeedsTx(e)})
+                               ((e.st = "ok" /\ e.stale) \/ e.st = "can") /\ e.enc = "ok" /\ s.now < e.expiry /\ NeedsTx(e)})
 
 Track(s) ==
   IF Calling(s) = {} THEN s
@@ -119,6 +120,12 @@ RetSend(s, ev) ==
                [] OTHER ->     \* the call raised something else: nothing was accepted
                     LET s1 == IF e.enc = "ok" THEN V(s, "SendRaised") ELSE s
                     IN [s1 EXCEPT !.acc[i].st = "rej"]
+
+\* The application cancels its own send() (asyncio.timeout, wait_for ...): from here on nothing is owed
+\* for that message - it may have been taken or not, it may still be transmitted (once) or not.
+CancelSend(s, ev) ==
+  [s EXCEPT !.acc = [i \in Idx(s) |-> IF s.acc[i].id = ev.id /\ s.acc[i].st = "calling"
+                                        THEN [s.acc[i] EXCEPT !.st = "can"] ELSE s.acc[i]]]
 
 -----------------------------------------------------------------------------
 (* connections *)
@@ -255,6 +262,7 @@ Step1(s0, ev) ==
       k == ev.e
   IN CASE k = "callsend"  -> CallSend(s, ev)
        [] k = "retsend"   -> RetSend(s, ev)
+       [] k = "cancelsend" -> CancelSend(s, ev)
        [] k = "callopen"  -> CallOpen(s)
        [] k = "callclose" -> CallClose(s)
        [] k = "retclose"  -> RetClose(s)
